@@ -396,6 +396,9 @@ class Interp:
                     return replace(base, restricted=True, why_restricted=f"slice {show(idx)}")
                 return base
             base = self.coll(base_t, c)
+            if isinstance(base, Coll) and (idx[0] == "const" and isinstance(idx[1], int) or (idx[0] == "un" and idx[1] == "-" and idx[2][0] == "const")) \
+                    and self._struct_pos(base_t) is None:
+                return replace(base, restricted=True, why_restricted="single element " + show(idx))
             return self._mask(base, base_t, idx, c)
         # complement in id representation: c ^ X, X ^ c, X - c, X & ~c
         if t[0] == "bin" and t[1] in ("^", "-") and c is not None:
@@ -484,9 +487,14 @@ class Interp:
             return replace(cur, classes=(cur.classes - {EMPTY}) if not neg else (cur.classes & {EMPTY}))
         # size predicates and anything else remove candidates in a way the classes cannot express
         sizey = any(is_call_to(s, "len") for s in subterms(cd))
-        self.unrecognised.append(f"filter condition {show(cd)[:80]}") if not sizey else None
+        # supersets have no symmetry that would make dropping some of them harmless: every extra predicate on the superset side
+        # removes candidates of the MIN (recognised restriction).  On the sub-coalition side a symmetric halving would be
+        # behaviour preserving, so an arbitrary predicate there stays 'unrecognised' (-> UNDECIDED).
+        super_side = cur.classes <= {SELF, PSUPER} and bool(cur.classes)
+        if not sizey and not super_side:
+            self.unrecognised.append(f"filter condition {show(cd)[:80]}")
         return replace(cur, restricted=True, why_restricted=("size predicate " if sizey else "predicate ") + show(cd)[:60],
-                       unrecognised=cur.unrecognised or not sizey)
+                       unrecognised=cur.unrecognised or (not sizey and not super_side))
 
     def _mask(self, base: object, base_t: Term, idx: Term, c: Term | None) -> object:
         """base[idx] with idx a boolean mask in id representation."""
